@@ -38,9 +38,13 @@ type ctor struct {
 	def bool
 	cap int
 	lf  float32
+	arr bool // the sets only: NewIntSetArray / NewStringSetArray (as the code has it: the argument is ignored, the set starts empty)
 }
 
 func (c ctor) String() string {
+	if c.arr {
+		return "array-ctor"
+	}
 	if c.def {
 		return "default"
 	}
@@ -54,6 +58,7 @@ type op struct {
 	k     key
 	v     int64
 	n     int
+	hit   bool // ESV only: the entry was found (set when executed)
 	rel   bool // SM only: n is an offset from the target's Size() at the moment of the call (resolved when executed)
 	asc   bool
 	pairs []pairKV // PA, TO
@@ -135,11 +140,86 @@ func tokStr(t string) string {
 // nilV stands for a nil interface value in an op (token `nil`).
 const nilV = math.MinInt64 + 7777
 
+// Value kinds (IntKeyMap stores interface{} values): the map must treat a value as opaque — store it, hand it back —
+// whatever its dynamic type.  A model value in [kindBase, kindBase+nKinds*kindSpan) stands for a Go value of kind
+// (v-kindBase)/kindSpan carrying the payload (v-kindBase)%kindSpan; any other model value is the boxed integer V(v).
+// Kinds 3, 4, 5, 6, 10 are NOT comparable (`==` on two interface values of that dynamic type panics), 8 is a typed nil
+// pointer inside a non-nil interface, 2 is a pointer (identity; interned per payload).
+const (
+	kindBase = int64(1000000000000000)
+	kindSpan = int64(1000000)
+	nKinds   = 11
+)
+
+type valCell struct{ p int64 }
+type valStruct struct {
+	xs  []int64
+	tag string
+}
+type valBox struct{ v interface{} } // comparable type, but comparing two of them panics when v holds a slice
+
+var kindNames = []string{"string", "float64", "pointer", "slice", "map", "func", "struct-with-slice", "array", "typed-nil-pointer", "bool", "struct-with-interface-slice"}
+
+var valCells sync.Map // payload → *valCell
+
+func codedV(kind int, payload int64) int64 {
+	switch kind {
+	case 8:
+		payload = 0
+	case 9:
+		payload &= 1
+	}
+	return kindBase + int64(kind)*kindSpan + payload%kindSpan
+}
+
+func valKind(v int64) int { // -1: a boxed integer (or nil)
+	if v >= kindBase && v < kindBase+nKinds*kindSpan {
+		return int((v - kindBase) / kindSpan)
+	}
+	return -1
+}
+
+func comparableVal(v int64) bool {
+	switch valKind(v) {
+	case 3, 4, 5, 6, 10:
+		return false
+	}
+	return true
+}
+
 func boxV(v int64) interface{} {
 	if v == nilV {
 		return nil
 	}
-	return V(v)
+	k := valKind(v)
+	if k < 0 {
+		return V(v)
+	}
+	p := (v - kindBase) % kindSpan
+	switch k {
+	case 0:
+		return "s" + strconv.FormatInt(p, 10)
+	case 1:
+		return float64(p) + 0.5
+	case 2:
+		c, _ := valCells.LoadOrStore(p, &valCell{p})
+		return c.(*valCell)
+	case 3:
+		return []int32{int32(p)}
+	case 4:
+		return map[string]int64{"p": p}
+	case 5:
+		return func() int64 { return p }
+	case 6:
+		return valStruct{xs: []int64{p}, tag: "t"}
+	case 7:
+		return [2]int32{int32(p), -int32(p)}
+	case 8:
+		return (*valCell)(nil)
+	case 9:
+		return p == 1
+	}
+	return valBox{v: []int32{int32(p)}}
 }
 
 func valTok(v int64) string {
@@ -162,6 +242,46 @@ func objVal(x interface{}) string {
 		return "-"
 	case V:
 		return strconv.FormatInt(int64(t), 10)
+	case string:
+		if p, err := strconv.ParseInt(strings.TrimPrefix(t, "s"), 10, 64); err == nil && strings.HasPrefix(t, "s") {
+			return strconv.FormatInt(codedV(0, p), 10)
+		}
+	case float64:
+		return strconv.FormatInt(codedV(1, int64(t-0.5)), 10)
+	case *valCell:
+		if t == nil {
+			return strconv.FormatInt(codedV(8, 0), 10)
+		}
+		if c, ok := valCells.Load(t.p); ok && c.(*valCell) == t { // the very pointer that was stored
+			return strconv.FormatInt(codedV(2, t.p), 10)
+		}
+	case []int32:
+		if len(t) == 1 {
+			return strconv.FormatInt(codedV(3, int64(t[0])), 10)
+		}
+	case map[string]int64:
+		if p, ok := t["p"]; ok && len(t) == 1 {
+			return strconv.FormatInt(codedV(4, p), 10)
+		}
+	case func() int64:
+		return strconv.FormatInt(codedV(5, t()), 10)
+	case valStruct:
+		if len(t.xs) == 1 && t.tag == "t" {
+			return strconv.FormatInt(codedV(6, t.xs[0]), 10)
+		}
+	case [2]int32:
+		if t[1] == -t[0] {
+			return strconv.FormatInt(codedV(7, int64(t[0])), 10)
+		}
+	case bool:
+		if t {
+			return strconv.FormatInt(codedV(9, 1), 10)
+		}
+		return strconv.FormatInt(codedV(9, 0), 10)
+	case valBox:
+		if s, ok := t.v.([]int32); ok && len(s) == 1 {
+			return strconv.FormatInt(codedV(10, int64(s[0])), 10)
+		}
 	}
 	return fmt.Sprintf("?%T:%v", x, x)
 }
@@ -267,6 +387,14 @@ func wrapIntIntMap(m *hmap.IntIntMap) *inst {
 			case "TO":
 				m.ToObject(gio.NewDataInputX(encodePairs(o.pairs)))
 				return "u"
+			case "ESV": // SetValue on the live entry of key k (found by enumerating Entries()): writes through to the map
+				en := m.Entries()
+				for i := 0; en.HasMoreElements() && i < m.Size()+enumSlack; i++ {
+					if e, ok := en.NextElement().(*hmap.IntIntEntry); ok && e.GetKey() == k {
+						return i32Tok(e.SetValue(v))
+					}
+				}
+				return "absent"
 			case "TS": // ToString() against the entries' own ToString(), enumerated the HasMoreElements way
 				var parts []string
 				en := m.Entries()
@@ -444,7 +572,29 @@ func newIntKeyMap(c ctor) *inst {
 			case "CK":
 				return boolTok(m.ContainsKey(k))
 			case "CV":
-				return boolTok(m.ContainsValue(V(o.v)))
+				return boolTok(m.ContainsValue(boxV(o.v)))
+			case "ESV": // SetValue on the live entry of key k: writes through to the map
+				en := m.Entries()
+				for i := 0; en.HasMoreElements() && i < m.Size()+enumSlack; i++ {
+					if e, ok := en.NextElement().(*hmap.IntKeyEntry); ok && e.GetKey() == k {
+						return objVal(e.SetValue(boxV(o.v)))
+					}
+				}
+				return "absent"
+			case "TFS": // ToFormatString() against the entries' own ToString()
+				var sb strings.Builder
+				sb.WriteString("{\n")
+				en := m.Entries()
+				for i := 0; en.HasMoreElements() && i < m.Size()+enumSlack; i++ {
+					if e, ok := en.NextElement().(*hmap.IntKeyEntry); ok {
+						sb.WriteString("\t" + e.ToString() + "\n")
+					}
+				}
+				sb.WriteString("}")
+				if got := m.ToFormatString(); got != sb.String() {
+					return strconv.Itoa(m.Size()) + "!ToFormatString=" + got + " want " + sb.String()
+				}
+				return strconv.Itoa(m.Size())
 			case "R":
 				return objVal(m.Remove(k))
 			case "C":
@@ -593,6 +743,9 @@ func newIntKeyMap(c ctor) *inst {
 func newIntSet(c ctor) *inst {
 	dm := new(int) // how the enumerators of this instance are driven (rotated by every dump / EO)
 	m := hmap.NewIntSet()
+	if c.arr {
+		m = hmap.NewIntSetArray([]string{"1", "2", "3"})
+	}
 	it := &inst{
 		exec: func(o op) string {
 			k := int32(o.k.i)
@@ -683,6 +836,9 @@ func newIntSet(c ctor) *inst {
 func newStringSet(c ctor) *inst {
 	dm := new(int) // how the enumerators of this instance are driven (rotated by every dump / EO)
 	m := hmap.NewStringSet()
+	if c.arr {
+		m = hmap.NewStringSetArray([]string{"a", "b", "c"})
+	}
 	it := &inst{
 		exec: func(o op) string {
 			k := o.k.s
@@ -748,10 +904,10 @@ func newStringSet(c ctor) *inst {
 
 var types = []*tdesc{
 	{name: "IntIntMap", kkind: 'i', hasCtor: true,
-		ops:  []string{"P", "A", "AE", "G", "CK", "CV", "R", "C", "SZ", "IE", "IF", "SM", "SN", "SO", "TO", "TS"},
+		ops:  []string{"P", "A", "AE", "G", "CK", "CV", "R", "C", "SZ", "IE", "IF", "SM", "SN", "SO", "TO", "TS", "ESV"},
 		xops: []string{"TOF", "KAW", "EOB", "EIB"}, views: []string{"Entries", "Keys", "Values", "KeyArray", "ValueArray"}, mk: newIntIntMap},
 	{name: "IntKeyMap", kkind: 'i', hasCtor: true,
-		ops:  []string{"P", "G", "CK", "CV", "R", "C", "SZ", "PA", "TS"},
+		ops:  []string{"P", "G", "CK", "CV", "R", "C", "SZ", "PA", "TS", "ESV", "TFS"},
 		xops: []string{"PAF", "KAW", "EOB", "EIB"}, views: []string{"Entries", "Keys", "Values", "KeyArray"}, mk: newIntKeyMap},
 	{name: "IntSet", kkind: 'i', isSet: true,
 		ops:  []string{"P", "CK", "R", "C", "SZ", "PA", "TS"},
@@ -800,6 +956,10 @@ func (t *tdesc) method(code string) string {
 		return "PutAll"
 	case "TS":
 		return "ToString"
+	case "TFS":
+		return "ToFormatString"
+	case "ESV":
+		return "Entry.SetValue"
 	case "TO", "TOF":
 		return "ToObject"
 	case "PAF", "PAW":
@@ -834,7 +994,12 @@ func (t *tdesc) line0(o op) string {
 		return t.line0(o2)
 	case "KAW":
 		return "KS"
-	case "EO", "TS", "EN", "SN": // SN: the configured NONE only changes how "absent" is shown; the model sees a Size query
+	case "ESV": // SetValue on the live entry of a present key IS put(k, v); no entry, nothing happens
+		if o.hit {
+			return fmt.Sprintf("P %s %s", t.keyTok(o.k), valTok(o.v))
+		}
+		return "G " + t.keyTok(o.k)
+	case "EO", "TS", "TFS", "EN", "SN": // SN: the configured NONE only changes how "absent" is shown; the model sees a Size query
 		return "SZ"
 	case "ED":
 		return "ES"
@@ -879,8 +1044,10 @@ func (t *tdesc) replayLine(o op) string { return fmt.Sprintf("@%d %s", o.t, t.re
 
 func (t *tdesc) replayLine0(o op) string {
 	switch o.code {
-	case "KAW", "EO", "ED", "TS":
+	case "KAW", "EO", "ED", "TS", "TFS":
 		return o.code
+	case "ESV":
+		return fmt.Sprintf("ESV %s %s", t.keyTok(o.k), valTok(o.v))
 	case "EN":
 		return fmt.Sprintf("EN %d", o.n)
 	case "SN":
@@ -923,7 +1090,7 @@ func parseLine(t *tdesc, l string) (op, bool) {
 		return key{i: i}
 	}
 	switch w[0] {
-	case "P", "A", "AE":
+	case "P", "A", "AE", "ESV":
 		if len(w) != 3 {
 			return o, false
 		}
@@ -969,7 +1136,7 @@ func parseLine(t *tdesc, l string) (op, bool) {
 
 func mutating(code string) bool {
 	switch code {
-	case "P", "U", "A", "AE", "R", "C", "SO", "SM", "PA", "TO", "PAF", "TOF", "PAW", "KAW":
+	case "P", "U", "A", "AE", "R", "C", "SO", "SM", "PA", "TO", "PAF", "TOF", "PAW", "KAW", "ESV":
 		return true // (KAW does not mutate; it is followed by a dump because the caller writes the returned slices)
 	}
 	return false
@@ -1004,6 +1171,12 @@ func (t *tdesc) newLine(c ctor) string {
 // expect converts the driver's answer into the token the implementation shows for the same
 // abstract result.
 func (t *tdesc) expect(o op, model string, none string) string {
+	if o.code == "ESV" && model == "-" && !(o.hit && t.name == "IntKeyMap") {
+		if !o.hit {
+			return "absent" // no entry with that key was enumerated, and the model has none
+		}
+		return "present-in-the-implementation-only"
+	}
 	switch t.name {
 	case "IntIntMap":
 		switch o.code {
@@ -1119,6 +1292,14 @@ func runImplStall(t *tdesc, cs []ctor, ops []op, dumpEvery int, skip map[string]
 			}
 			m := ms[0]
 			sinceDump := 0
+			// dumpEvery < 0: "late" dumps — a dump that is due is taken after the read-only operations that follow the
+			// mutating one (just before the next mutating operation), so that a directly observed Size() / IsEmpty() /
+			// lookup right after a Clear / Sort is compared first and gives the short, specific replay
+			late := dumpEvery < 0
+			if late {
+				dumpEvery = -dumpEvery
+			}
+			due := false
 			for i, o := range ops {
 				atomic.StoreInt64(&cur, int64(i))
 				if o.t >= len(ms) {
@@ -1132,14 +1313,31 @@ func runImplStall(t *tdesc, cs []ctor, ops []op, dumpEvery int, skip map[string]
 					o.n, o.rel = sz+o.n, false
 				}
 				out := execOp(ms, o)
+				if o.code == "ESV" {
+					o.hit = out != "absent"
+				}
 				st := stepRes{line: t.line(o), o: o, out: out}
 				if mutating(o.code) {
 					sinceDump++
 					if sinceDump >= dumpEvery || i == len(ops)-1 {
-						for _, mi := range ms {
-							st.dmps = append(st.dmps, mi.dump(skip))
-						}
-						sinceDump = 0
+						due = true
+					}
+				}
+				if due && (!late || i == len(ops)-1 || mutating(ops[i+1].code)) {
+					if late { // publish the step first: if the dump itself fails, the operations before it are in the replay
+						mu.Lock()
+						h.steps = append(h.steps, stepRes{line: t.line(o), o: o, out: out})
+						mu.Unlock()
+					}
+					for _, mi := range ms {
+						st.dmps = append(st.dmps, mi.dump(skip))
+					}
+					sinceDump, due = 0, false
+					if late {
+						mu.Lock()
+						h.steps[len(h.steps)-1] = st
+						mu.Unlock()
+						continue
 					}
 				}
 				mu.Lock()
@@ -1199,12 +1397,13 @@ type instJ struct {
 	Cap int     `json:"cap"`
 	Lf  float32 `json:"lf"`
 	Def bool    `json:"default_ctor"`
+	Arr bool    `json:"array_ctor,omitempty"`
 }
 
 func ctorsJ(cs []ctor) []instJ {
 	var out []instJ
 	for _, c := range cs {
-		out = append(out, instJ{c.cap, c.lf, c.def})
+		out = append(out, instJ{c.cap, c.lf, c.def, c.arr})
 	}
 	return out
 }
@@ -1555,6 +1754,12 @@ func genVal(t *tdesc, r *vh.Rng) int64 {
 	if r.Chance(6) {
 		return nilV // a stored nil interface value (IntKeyMap)
 	}
+	if r.Chance(30) { // a value of another dynamic type: half of them of a NON-comparable type (slice, map, func, struct holding one)
+		if r.Chance(50) {
+			return codedV(r.PickInt([]int{3, 4, 5, 6, 10, 3}), int64(r.Intn(4)))
+		}
+		return codedV(r.Intn(nKinds), int64(r.Intn(4)))
+	}
 	return r.Range(-50, 50)
 }
 
@@ -1571,7 +1776,7 @@ func baseOnly(avail []string) []string {
 	return out
 }
 
-var weights = map[string]int{"TS": 3, "PAF": 6, "TOF": 5, "PAW": 3, "KAW": 2, "EOB": 3, "EIB": 3, "SN": 2, "P": 30, "U": 8, "A": 10, "AE": 6, "G": 8, "CK": 7, "HK": 3, "CV": 4, "R": 14, "C": 1, "SZ": 2, "IE": 1, "IF": 2, "SM": 2, "SO": 2, "PA": 3, "TO": 2}
+var weights = map[string]int{"ESV": 4, "TFS": 1, "TS": 3, "PAF": 6, "TOF": 5, "PAW": 3, "KAW": 2, "EOB": 3, "EIB": 3, "SN": 2, "P": 30, "U": 8, "A": 10, "AE": 6, "G": 8, "CK": 7, "HK": 3, "CV": 4, "R": 14, "C": 1, "SZ": 2, "IE": 1, "IF": 2, "SM": 2, "SO": 2, "PA": 3, "TO": 2}
 
 // genOps generates a history over `nInst` live instances of the type (one key pool for all of them, so
 // that the same keys live in several containers).  Cross-object operations: PAF (PutAll from another live
@@ -1659,6 +1864,15 @@ func genOps(t *tdesc, r *vh.Rng, avail []string, n int, nInst int) []op {
 				ops = append(ops, op{code: c, t: o.t, k: k, v: genVal(t, r)})
 			}
 			continue
+		case "ESV":
+			o.v = genVal(t, r)
+			if o.v == nilV { // IntKeyEntry.SetValue(nil) is refused by the entry (entryObjects checks that directly)
+				o.v = 0
+			}
+			if ks := putK[o.t]; len(ks) > 0 && r.Chance(75) {
+				o.k = ks[r.Intn(len(ks))]
+			}
+			vals = append(vals, o.v)
 		case "P", "A", "AE", "U":
 			o.v = genVal(t, r)
 			vals = append(vals, o.v)
@@ -1671,6 +1885,9 @@ func genOps(t *tdesc, r *vh.Rng, avail []string, n int, nInst int) []op {
 			}
 			if o.v == nilV {
 				o.v = 0
+			}
+			if !comparableVal(o.v) { // ContainsValue compares with ==: two values of one non-comparable dynamic type cannot be compared in Go
+				o.v = codedV(r.PickInt([]int{0, 1, 2, 7, 8, 9}), (o.v-kindBase)%kindSpan)
 			}
 		case "SM":
 			// a configuration call at any point of a history: no bound (0, negative), tiny bounds, bounds around the
@@ -1712,6 +1929,9 @@ func genOps(t *tdesc, r *vh.Rng, avail []string, n int, nInst int) []op {
 
 func genCtor(t *tdesc, r *vh.Rng, capOK map[int]bool) ctor {
 	c := ctor{def: true}
+	if t.isSet && r.Chance(30) {
+		c.arr = true
+	}
 	if t.hasCtor && r.Chance(80) {
 		caps := []int{0, 1, 2, 3, 101}
 		for tries := 0; tries < 10; tries++ {
@@ -1732,7 +1952,7 @@ func readOp(t *tdesc, r *vh.Rng, avail []string, a int, pool, put []key) op {
 	var cands []string
 	for _, c := range avail {
 		switch c {
-		case "G", "CK", "HK", "SZ", "TS", "CV", "IE", "IF":
+		case "G", "CK", "HK", "SZ", "TS", "TFS", "CV", "IE", "IF":
 			cands = append(cands, c)
 			if c == "G" || c == "CK" {
 				cands = append(cands, c, c) // mostly lookups
@@ -1985,6 +2205,169 @@ func genWide(t *tdesc, r *vh.Rng, has map[string]bool, path string, width int) [
 	return ops
 }
 
+// genValueKinds (IntKeyMap): a value is opaque to the map.  Keys holding a value of kind `a` (-1 = boxed integer,
+// -2 = nil) are overwritten with a value of EVERY kind — the same non-comparable dynamic type included — through Put,
+// through the live entry's SetValue and through PutAll; every overwrite must return the previous value and store the new one.
+func genValueKinds(t *tdesc, r *vh.Rng, a int, has map[string]bool) []op {
+	mkv := func(kind int, p int64) int64 {
+		switch kind {
+		case -1:
+			return p
+		case -2:
+			return nilV
+		}
+		return codedV(kind, p)
+	}
+	var ops []op
+	base := int64(r.Intn(50)) * 101
+	kinds := []int{-2, -1}
+	for k := 0; k < nKinds; k++ {
+		kinds = append(kinds, k)
+	}
+	key := func(i int) key { return key{i: base + int64(i)*int64(r.PickInt([]int{1, 101, 8344921}))} }
+	for i := range kinds {
+		ops = append(ops, op{code: "P", k: key(i), v: mkv(a, 1)})
+	}
+	via := []string{"P"}
+	if has["ESV"] {
+		via = append(via, "ESV")
+	}
+	for i, b := range kinds {
+		c := via[r.Intn(len(via))]
+		v := mkv(b, 2)
+		if c == "ESV" && v == nilV {
+			c = "P"
+		}
+		ops = append(ops, op{code: c, k: key(i), v: v}, op{code: "G", k: key(i)})
+	}
+	if has["PA"] { // … and back to kind a through PutAll (every key is overwritten once more)
+		o := op{code: "PA"}
+		for i := range kinds {
+			o.pairs = append(o.pairs, pairKV{key(i), mkv(a, 3)})
+		}
+		ops = append(ops, o)
+	}
+	if has["CV"] && comparableVal(mkv(a, 3)) && a != -2 {
+		ops = append(ops, op{code: "CV", v: mkv(a, 3)}, op{code: "CV", v: mkv(a, 1)})
+	}
+	for i := range kinds {
+		if i%2 == 0 {
+			ops = append(ops, op{code: "R", k: key(i)})
+		} else {
+			ops = append(ops, op{code: "P", k: key(i), v: mkv(a, 3)}) // the value it already holds (same payload, same kind)
+		}
+	}
+	ops = append(ops, op{code: "SZ"})
+	if has["TS"] {
+		ops = append(ops, op{code: "TS"})
+	}
+	if has["TFS"] {
+		ops = append(ops, op{code: "TFS"})
+	}
+	return ops
+}
+
+// genGrowReset: "populated until the table has grown g times, then RESET (Clear, or Sort — which clears and re-puts),
+// then observed and populated again".  Whatever the table went through, after Clear the container is the empty
+// map / set: Size 0, IsEmpty, no member, an empty enumeration, KeyArray of length 0; what is put afterwards counts
+// from zero and the table grows again.  `width` distinct keys before the reset, `width2` after it.
+func genGrowReset(t *tdesc, r *vh.Rng, has map[string]bool, width, width2 int) []op {
+	var ops []op
+	seen := map[string]bool{}
+	mk := func(i int) key {
+		for {
+			var k key
+			if t.kkind == 's' {
+				k = key{s: "q" + strconv.Itoa((i*7919+r.Intn(3))%100003)}
+			} else {
+				k = key{i: int64(int32(int64(i)*int64(r.PickInt([]int{7, 101, -203, 8344921, 1})) - 300))}
+			}
+			if tok := t.keyTok(k); !seen[tok] {
+				seen[tok] = true
+				return k
+			}
+			i += 100003
+		}
+	}
+	observe := func(ks []key) {
+		ops = append(ops, op{code: "SZ"})
+		for _, c := range []string{"IE", "IF"} {
+			if has[c] {
+				ops = append(ops, op{code: c})
+			}
+		}
+		for j := 0; j < 3 && len(ks) > 0; j++ {
+			c := "CK"
+			if has["G"] && r.Bool() {
+				c = "G"
+			}
+			ops = append(ops, op{code: c, k: ks[r.Intn(len(ks))]})
+		}
+		for _, c := range []string{"TS", "TFS"} {
+			if has[c] && r.Chance(60) {
+				ops = append(ops, op{code: c})
+			}
+		}
+	}
+	populate := func(n int) []key {
+		var ks []key
+		for i := 0; i < n; i++ {
+			k := mk(len(seen))
+			ks = append(ks, k)
+			c := "P"
+			if has["A"] && r.Chance(25) {
+				c = "A"
+			}
+			ops = append(ops, op{code: c, k: k, v: genVal(t, r)})
+		}
+		return ks
+	}
+	reset := func() {
+		if has["SO"] && r.Chance(35) {
+			ops = append(ops, op{code: "SO", asc: r.Bool()})
+			return
+		}
+		ops = append(ops, op{code: "C"})
+	}
+	ks := populate(width)
+	ops = append(ops, op{code: "SZ"})
+	if has["SO"] && r.Chance(50) { // Sort of the grown map: same map (it clears and re-puts internally)
+		ops = append(ops, op{code: "SO", asc: r.Bool()})
+		observe(ks)
+	}
+	ops = append(ops, op{code: "C"})
+	observe(ks)
+	if has["KAW"] {
+		ops = append(ops, op{code: "KAW"})
+	}
+	if has["EOB"] {
+		ops = append(ops, op{code: "EO"}, op{code: "ED"})
+	}
+	if r.Chance(50) { // a second Clear, now of an empty container with a large table
+		ops = append(ops, op{code: "C"}, op{code: "SZ"})
+	}
+	ops = append(ops, op{code: "P", k: mk(len(seen)), v: genVal(t, r)})
+	if has["A"] {
+		ops = append(ops, op{code: "A", k: mk(len(seen)), v: genVal(t, r)})
+	}
+	ops = append(ops, op{code: "SZ"})
+	if has["KAW"] {
+		ops = append(ops, op{code: "KAW"})
+	}
+	ks2 := populate(width2)
+	observe(ks2)
+	for _, k := range ks[:min(len(ks), 4)] { // keys of the first population are gone
+		ops = append(ops, op{code: "CK", k: k})
+	}
+	for i := 0; i < min(len(ks2), 6); i++ {
+		ops = append(ops, op{code: "R", k: ks2[r.Intn(len(ks2))]})
+	}
+	ops = append(ops, op{code: "SZ"})
+	reset()
+	observe(ks2)
+	return ops
+}
+
 func genGrowth(t *tdesc, r *vh.Rng, n int) []op {
 	var ops []op
 	mk := func(i int) key {
@@ -2154,6 +2537,161 @@ func knownReplays(rep *vh.Report) {
 	}
 }
 
+// ---------------------------------------------------------------- entry objects and enumerator constructors, evaluated directly
+//
+// The cells and enumerators are exported types with exported constructors / accessors.  What the property says about
+// them: an entry shows the key and the value it was made with, SetValue stores the new value and answers the previous
+// one, two entries are Equal exactly when their keys are (as the code has it: the value is not compared), and an
+// enumerator over ANY table — here one built by the caller out of NewIntKeyEntry chains — yields every cell exactly
+// once, buckets from the last to the first, each chain head first, driven in each of the three ways.
+func entryObjects(rep *vh.Report, r *vh.Rng) {
+	fail := func(key, what string, replay interface{}) {
+		rep.Fail("property", key, what, replay)
+	}
+	type rc struct {
+		What string   `json:"what"`
+		Ops  []string `json:"ops"`
+	}
+	n := 0
+	o := vh.Guard(func() {
+		for i := 0; i < 400; i++ {
+			k, k2 := int32(r.U64()), int32(r.U64())
+			if i%4 == 0 {
+				k2 = k
+			}
+			v1, v2 := genVal(types[1], r), genVal(types[1], r)
+			if v2 == nilV {
+				v2 = 5
+			}
+			tail := hmap.NewIntKeyEntry(k2, boxV(v2), nil)
+			e := hmap.NewIntKeyEntry(k, boxV(v1), tail)
+			ops := []string{fmt.Sprintf("e := NewIntKeyEntry(%d, %s, NewIntKeyEntry(%d, %s, nil))", k, valTok(v1), k2, valTok(v2))}
+			if e.GetKey() != k || objVal(e.GetValue()) != objVal(boxV(v1)) || e.Next != tail || e.Key != k {
+				fail("IntKeyEntry.New:fields", fmt.Sprintf("NewIntKeyEntry(%d, %s, next): GetKey() = %d, GetValue() = %s", k, valTok(v1), e.GetKey(), objVal(e.GetValue())), rc{"constructor / accessors", ops})
+			}
+			if e.Equals(tail) != (k == k2) || e.HashCode() != k {
+				fail("IntKeyEntry.Equals:result", fmt.Sprintf("entries with keys %d and %d: Equals = %v, HashCode = %d", k, k2, e.Equals(tail), e.HashCode()), rc{"Equals is equality of keys; HashCode is the key", ops})
+			}
+			if want := fmt.Sprintf("%d=%v", k, boxV(v1)); e.ToString() != want && valKind(v1) != 5 {
+				fail("IntKeyEntry.ToString:result", fmt.Sprintf("ToString() = %q, want %q", e.ToString(), want), rc{"ToString is key=value", ops})
+			}
+			old := e.SetValue(boxV(v2))
+			ops = append(ops, fmt.Sprintf("e.SetValue(%s)", valTok(v2)))
+			if objVal(old) != objVal(boxV(v1)) || objVal(e.GetValue()) != objVal(boxV(v2)) || e.GetKey() != k || e.Next != tail {
+				fail("IntKeyEntry.SetValue:result", fmt.Sprintf("SetValue(%s) on an entry holding %s returned %s and the entry now holds %s", valTok(v2), valTok(v1), objVal(old), objVal(e.GetValue())), rc{"SetValue stores the value and answers the previous one", ops})
+			}
+			// as the code has it: a nil value is refused (the entry keeps its value, the call answers nil and does not panic)
+			if got := e.SetValue(nil); got != nil || objVal(e.GetValue()) != objVal(boxV(v2)) {
+				fail("IntKeyEntry.SetValue:nil", fmt.Sprintf("SetValue(nil) returned %s and the entry now holds %s", objVal(got), objVal(e.GetValue())), rc{"SetValue(nil) is refused", append(ops, "e.SetValue(nil)")})
+			}
+			n++
+
+			s1, s2 := hmap.NewIntSetry(k, nil), hmap.NewIntSetry(k2, hmap.NewIntSetry(k, nil))
+			if s1.GetKey() != k || s1.Get() != k || s1.HashCode() != k || s1.ToString() != strconv.Itoa(int(k)) || s1.Equals(s2) != (k == k2) ||
+				s2.Clone() == s2 || s2.Clone().GetKey() != k2 || !s2.Clone().Equals(s2) {
+				fail("IntSetry:accessors", fmt.Sprintf("NewIntSetry(%d): GetKey %d Get %d HashCode %d ToString %s Equals(%d) %v", k, s1.GetKey(), s1.Get(), s1.HashCode(), s1.ToString(), k2, s1.Equals(s2)),
+					rc{"an IntSetry shows its key; Equals is equality of keys; Clone is a distinct equal cell", []string{fmt.Sprintf("NewIntSetry(%d, nil)", k)}})
+			}
+			ka, kb := "e"+strconv.Itoa(int(k)), "e"+strconv.Itoa(int(k2))
+			if i%7 == 0 {
+				ka = ""
+			}
+			t1, t2 := hmap.NewStringSetry(uint(hash.HashStr(ka)), ka, nil), hmap.NewStringSetry(uint(hash.HashStr(kb)), kb, hmap.NewStringSetry(7, ka, nil))
+			if t1.GetKey() != ka || t1.Get() != ka || t1.ToString() != ka || t1.Equals(t2) != (ka == kb) || t2.Clone() == t2 || t2.Clone().GetKey() != kb ||
+				t1.HashCode() != hmap.NewStringSetry(0, ka, nil).HashCode() {
+				fail("StringSetry:accessors", fmt.Sprintf("NewStringSetry(%q): GetKey %q Get %q ToString %q Equals(%q) %v", ka, t1.GetKey(), t1.Get(), t1.ToString(), kb, t1.Equals(t2)),
+					rc{"a StringSetry shows its key; Equals is equality of keys; HashCode depends on the key only", []string{fmt.Sprintf("NewStringSetry(h, %q, nil)", ka)}})
+			}
+			n++
+		}
+		// IntIntEntry (no exported constructor): the live cells of a map
+		for i := 0; i < 60; i++ {
+			m := hmap.NewIntIntMapDefault()
+			want := map[int32]int32{}
+			var ops []string
+			for j, q := 0, 1+r.Intn(30); j < q; j++ {
+				k, v := int32(r.Intn(40)*101), int32(r.Range(-50, 50))
+				m.Put(k, v)
+				want[k] = v
+				ops = append(ops, fmt.Sprintf("Put(%d, %d)", k, v))
+			}
+			var cells []*hmap.IntIntEntry
+			for en := m.Entries(); en.HasMoreElements() && len(cells) < len(want)+enumSlack; {
+				cells = append(cells, en.NextElement().(*hmap.IntIntEntry))
+			}
+			for _, c := range cells {
+				k, v := c.GetKey(), c.GetValue()
+				if w, ok := want[k]; !ok || w != v || c.ToString() != fmt.Sprintf("%d=%d", k, v) || c.HashCode() != uint(k)^uint(v) {
+					fail("IntIntEntry:accessors", fmt.Sprintf("entry %s of a map holding %d=%d (HashCode %d)", c.ToString(), k, w, c.HashCode()), rc{"an entry shows the key and value stored in the map", ops})
+				}
+				for _, c2 := range cells {
+					if c.Equals(c2) != (c == c2) { // keys are distinct within a map, so two different cells are never equal
+						fail("IntIntEntry.Equals:result", fmt.Sprintf("entries %s and %s: Equals = %v", c.ToString(), c2.ToString(), c.Equals(c2)), rc{"Equals is equality of key and value", ops})
+					}
+				}
+			}
+			if len(cells) != len(want) {
+				fail("IntIntEntry:count", fmt.Sprintf("%d entries enumerated, %d keys put", len(cells), len(want)), rc{"every stored element exactly once", ops})
+			}
+			n++
+		}
+		// enumerators over a table the caller built: every cell exactly once, last bucket first, chain head first
+		for i := 0; i < 120; i++ {
+			nb := r.PickInt([]int{0, 1, 2, 3, 7, 16})
+			table := make([]*hmap.IntKeyEntry, nb)
+			var ops []string
+			for b := 0; b < nb; b++ {
+				for j, q := 0, r.PickInt([]int{0, 0, 1, 2, 5}); j < q; j++ {
+					k := int32(b*1000 + j)
+					table[b] = hmap.NewIntKeyEntry(k, V(int64(k)*3), table[b])
+					ops = append(ops, fmt.Sprintf("table[%d] = NewIntKeyEntry(%d, %d, table[%d])", b, k, int64(k)*3, b))
+				}
+			}
+			var want []string
+			for b := nb - 1; b >= 0; b-- {
+				for e := table[b]; e != nil; e = e.Next {
+					want = append(want, fmt.Sprintf("%d=%s", e.Key, objVal(e.Value)))
+				}
+			}
+			for mode := 0; mode < 3; mode++ {
+				for _, ty := range []int{hmap.ELEMENT_TYPE_KEYS, hmap.ELEMENT_TYPE_VALUES, hmap.ELEMENT_TYPE_ENTRIES} {
+					en := hmap.NewIntKeyEnumer(ty, table)
+					var got []string
+					md := mode
+					drive(&md, len(want), en.HasMoreElements, func() {
+						switch x := en.NextElement().(type) {
+						case int32:
+							got = append(got, fmt.Sprintf("%d=%d", x, int64(x)*3))
+						case V:
+							got = append(got, fmt.Sprintf("%d=%d", int64(x)/3, int64(x)))
+						case *hmap.IntKeyEntry:
+							got = append(got, fmt.Sprintf("%d=%s", x.Key, objVal(x.Value)))
+						}
+					})
+					if strings.Join(got, ",") != strings.Join(want, ",") {
+						fail("IntKeyEnumer:hand-built-table", fmt.Sprintf("NewIntKeyEnumer(%d, table of %d buckets) driven in mode %d yields %s, the table holds %s", ty, nb, mode, vh.Clip(strings.Join(got, ","), 160), vh.Clip(strings.Join(want, ","), 160)),
+							rc{"an enumerator yields every cell exactly once, last bucket first, chain head first", ops})
+					}
+				}
+			}
+			n++
+		}
+		// the constructors that take no table: an enumerator over nothing
+		if en := hmap.NewIntIntMapEnumer(hmap.ELEMENT_TYPE_KEYS); en.HasMoreElements() {
+			fail("IntIntMapEnumer.New:hasMore", "NewIntIntMapEnumer(KEYS).HasMoreElements() = true on an enumerator without a table", rc{"an enumerator over nothing has no element", []string{"NewIntIntMapEnumer(1).HasMoreElements()"}})
+		}
+		hmap.NewIntSetEnumer(nil, 0)
+		hmap.NewStringSetEnumer(nil, 0)
+		if (hmap.IntIntMapSortable{}).Len() != 0 {
+			fail("IntIntMapSortable.Len:result", "Len() of the zero IntIntMapSortable is not 0", rc{"Len is the number of entries", []string{"IntIntMapSortable{}.Len()"}})
+		}
+	})
+	if !o.OK() {
+		fail("EntryObjects:panic", "an entry / enumerator constructor or accessor panicked: "+vh.Clip(o.Panic, 160), rc{"totality of the accessors", nil})
+	}
+	rep.CountN("entry-object-checks", n)
+}
+
 // ---------------------------------------------------------------- main
 
 func main() {
@@ -2182,6 +2720,7 @@ func main() {
 		return
 	}
 
+	entryObjects(rep, rng.Fork())
 	knownReplays(rep) // first: a finding that no longer reproduces switches its type to the repaired descriptor
 
 	perType := 500
@@ -2294,6 +2833,54 @@ func main() {
 					}
 					jobs = append(jobs, job{[]ctor{c}, genConfig(t, r, r.PickInt(ps), sm), 8})
 					rep.Count("config-history")
+				}
+			}
+		}
+		{ // reset (Clear / Sort) after 0..5 growth steps of the table, small and large tables, then observed and re-populated
+			has := map[string]bool{}
+			for _, a := range avail {
+				has[a] = true
+			}
+			type gr struct {
+				c      ctor
+				w1, w2 int
+			}
+			grs := []gr{{ctor{def: true}, 40, 90}, {ctor{def: true}, 100, 20}, {ctor{def: true}, 170, 30}, {ctor{def: true}, 200, 320},
+				{ctor{def: true}, 330, 10}, {ctor{def: true}, 640, 100}}
+			if t.hasCtor { // small tables grow 2..6 times within a short history; large explicit capacities start beyond every default-table size
+				for _, cp := range []int{1, 1, 2, 3} {
+					if ok, seen := po.capOK[cp]; !seen || ok {
+						grs = append(grs, gr{ctor{cap: cp, lf: []float32{0.5, 0.75, 1}[rng.Intn(3)]}, 3 + rng.Intn(40), 2 + rng.Intn(40)})
+					}
+				}
+				for _, cp := range []int{405, 1000, 4001} {
+					grs = append(grs, gr{ctor{cap: cp, lf: 0.75}, 5 + rng.Intn(60), 5 + rng.Intn(30)})
+				}
+			}
+			reps := 1
+			if env.Thorough {
+				reps = 3
+			}
+			for _, g := range grs {
+				for q := 0; q < reps; q++ {
+					r := rng.Fork()
+					c := g.c
+					if t.isSet && r.Chance(30) {
+						c.arr = true
+					}
+					jobs = append(jobs, job{[]ctor{c}, genGrowReset(t, r, has, g.w1, g.w2), -12})
+					rep.Count("grow-reset-history")
+				}
+			}
+			if t.name == "IntKeyMap" { // values of every dynamic type overwritten by values of every dynamic type
+				for a := -2; a < nKinds; a++ {
+					r := rng.Fork()
+					c := ctor{def: true}
+					if a%3 == 0 {
+						c = genCtor(t, r, po.capOK)
+					}
+					jobs = append(jobs, job{[]ctor{c}, genValueKinds(t, r, a, has), 1})
+					rep.Count("value-kind-history")
 				}
 			}
 		}
@@ -2652,7 +3239,7 @@ func replayFile(env *vh.Env, rep *vh.Report) {
 		if len(rc.Insts) > 0 {
 			cs = nil
 			for _, x := range rc.Insts {
-				cs = append(cs, ctor{def: x.Def, cap: x.Cap, lf: x.Lf})
+				cs = append(cs, ctor{def: x.Def, cap: x.Cap, lf: x.Lf, arr: x.Arr})
 			}
 		}
 		h := runImpl(t, cs, ops, 1, nil)
